@@ -17,6 +17,9 @@ Driver for C07 (texts travel as hex of their UTF-8 bytes, `_` = empty).
           S oracle, independent of the printer model: the text is read with `readStd` in `envOf term`, its sort must be
           the term's, its value the term's under every interpretation given (those evaluating a division by zero skipped)
     runstd <hex script>                            → accepted <ncommands> | rejected <hex msg> | unreadable <hex msg>
+    cmp_cmds <0|1> <cmds> <hex text>               → same | diff <hex model text> | unreadable <hex msg>      (multi-command scripts, exact sequence)
+    chk_cmds <k> <interp>*k <n> <term>*n <hex text> → ok <compared> <skipped> | fail …   accepted by runStd; the n live assertions
+                                                     are, in order, the given formulas (value under every interpretation)
     printable <term>                               → yes|no guard|noguard dag|nodag   (Printable / avGuard / DagOK in envOf term:
                                                      the hypotheses of read_toSexp, print_sound, printDag_sound)
     chk_script <k> <interp>*k <term> <hex script>  → ok <compared> <skipped> | fail …
@@ -156,6 +159,60 @@ def pChkScript : P String := do
         | [t'] => return compareUnder Is t t'
         | l => return s!"fail assertions {l.length}"
 
+/-- `<n> (L <hex> | S <hex> <arity> | F <hex> <symty> | C <hex> <ty> | A <term> | P <n> | O <n> | K)*n` -/
+def pCmds : P (List Printer.Cmd) := do
+  let n ← nat
+  rep n (do
+    let t ← next
+    match t with
+    | "L" => return .setLogic (← str)
+    | "S" => do let nm ← str; let k ← nat; return .declareSort nm k
+    | "F" => do let nm ← str; return .declareFun (← symTy nm)
+    | "C" => do let nm ← str; return .declareConst ⟨nm, [], ← ty⟩
+    | "A" => return .assert (← term)
+    | "P" => return .push (← nat)
+    | "O" => return .pop (← nat)
+    | "K" => return .checkSat
+    | _ => throw "command expected")
+
+/-- K for multi-command scripts: exact command sequence -/
+def pCmpCmds : P String := do
+  let dag ← flag
+  let cmds ← pCmds
+  let txt ← str
+  let m := Printer.scriptOfCmds dag cmds
+  match Sexp.read txt with
+  | .error e => return "unreadable " ++ hx e
+  | .ok l => if l == m then return "same" else return "diff " ++ hx (Sexp.renderAll m)
+
+/-- S for multi-command scripts: accepted by `runStd`, and the live assertions are, one by one, the given formulas
+(same sort Bool, same value under every interpretation given) -/
+def pChkCmds : P String := do
+  let k ← nat
+  let Is ← rep k interp
+  let n ← nat
+  let ts ← rep n term
+  let txt ← str
+  match Sexp.read txt with
+  | .error e => return "fail lex " ++ hx e
+  | .ok cmds =>
+    match runStd cmds with
+    | .error e => return "fail rejected " ++ hx e
+    | .ok st =>
+      let live := st.live
+      if live.length != ts.length then return s!"fail assertions {live.length} {ts.length}"
+      let mut compared := 0
+      let mut skipped := 0
+      let mut i := 0
+      for (t, t') in ts.zip live do
+        let r := compareUnder Is t t'
+        if !r.startsWith "ok" then return r ++ s!" assertion {i}"
+        match (r.splitOn " ") with
+        | [_, c, s] => compared := compared + c.toNat!; skipped := skipped + s.toNat!
+        | _ => pure ()
+        i := i + 1
+      return s!"ok {compared} {skipped}"
+
 /-- does the term satisfy the hypotheses of `read_toSexp` in its own environment? -/
 def pPrintable : P String := do
   let t ← term
@@ -175,6 +232,8 @@ def main : IO Unit := loop fun line =>
   | some "runstd" => handle pRunStd toks
   | some "chk_script" => handle pChkScript toks
   | some "printable" => handle pPrintable toks
+  | some "cmp_cmds" => handle pCmpCmds toks
+  | some "chk_cmds" => handle pChkCmds toks
   | _ => match coreAnswer toks with
     | some a => a
     | none => "bad-op"
